@@ -128,6 +128,7 @@ class Engine(Interp):
         bb = body.blocks[bi]
         ctx = self.ctx
         ctx.steps += 1
+        self._cur_frame = fr
         stmts = bb["statements"]
         for si in range(start, len(stmts)):
             stmt = stmts[si]
@@ -348,6 +349,8 @@ class Engine(Interp):
         """-> list of (return value, state)"""
         ctx = self.ctx
         name = callee.name
+        if ctx.observers:
+            ctx.emit("enter", frame=fr, bb=bi, callee=callee, args=args, st=st)
         # explicit panics
         if is_panic_fn(name):
             ctx.obligation("panic", fr, bi, False, f"call to {name} is abstractly reachable", name.split("::")[-1])
@@ -440,7 +443,7 @@ class Engine(Interp):
         # memoisation for pure scalar functions
         mkey = None
         deep = bool(ctx.summary_fns and ctx.summary_fns(inst))
-        sig = None if st.res else self.sig_of(st, args, deep)
+        sig = None if (st.res or getattr(ctx, 'no_memo', 0)) else self.sig_of(st, args, deep)
         if sig is not None:
             mkey = (inst.id, sig)
             hit = ctx.memo.get(mkey)
